@@ -20,6 +20,7 @@ import (
 	"fmt"
 	"strconv"
 	"strings"
+	"unicode/utf16"
 
 	"github.com/XiaoMi/Gaea/util"
 	"github.com/XiaoMi/Gaea/util/hack"
@@ -41,8 +42,14 @@ func NewMycatPartitionModShard(shardNum int) *MycatPartitionModShard {
 
 // FindForKey return result of calculated key
 func (m *MycatPartitionModShard) FindForKey(key interface{}) (int, error) {
-	h := hack.Abs(NumValue(key))
-	return int(h % int64(m.ShardNum)), nil
+	// Mycat computes BigInteger(value).abs().mod(count): the magnitude is taken as
+	// an unsigned number, so math.MinInt64 is 2^63 and not a negative value.
+	v := NumValue(key)
+	h := uint64(v)
+	if v < 0 {
+		h = uint64(-v)
+	}
+	return int(h % uint64(m.ShardNum)), nil
 }
 
 const (
@@ -231,27 +238,28 @@ func parseHashSliceValue(str string) (int, error) {
 
 // FindForKey return MycatPartitionStringShard calculated result
 func (m *MycatPartitionStringShard) FindForKey(key interface{}) (int, error) {
-	keyStr := GetString(key)
+	// Mycat slices and hashes Java chars, i.e. UTF-16 code units: lengths and
+	// positions are counted in units, not in bytes or code points.
+	input := utf16.Encode([]rune(GetString(key)))
 	var start int
 	if m.hashSliceStart >= 0 {
 		start = m.hashSliceStart
 	} else {
-		start = len(keyStr) + m.hashSliceStart
+		start = len(input) + m.hashSliceStart
 	}
 
 	var end int
 	if m.hashSliceEnd > 0 {
 		end = m.hashSliceEnd
 	} else {
-		end = len(keyStr) + m.hashSliceEnd
+		end = len(input) + m.hashSliceEnd
 	}
-	h := stringHash(keyStr, start, end)
+	h := stringHash(input, start, end)
 	return m.segment[int(h)&andValue], nil
 }
 
 // copied from mycat
-func stringHash(s string, start, end int) int64 {
-	input := []rune(s)
+func stringHash(input []uint16, start, end int) int64 {
 	if start < 0 {
 		start = 0
 	}
